@@ -29,38 +29,48 @@ Theorem C16_other_extensions_ignored : forall es p n,
 Proof. exact other_extension_ignored. Qed.
 
 (* AFTER THE REPAIR OF D16 (an input declared as a FILE is also watched through its directory, so that it survives being replaced
-   by a rename): the filter has one more conjunct, `other_in_file_dir files` — `files` = the declared paths watched as files.
-   Paths are compared as Rust compares them, by components (`pkey`: root, leading `.`, Normal and `..` components). *)
+   by a rename): the filter has one more conjunct, `other_in_file_dir declared files` — `declared` = every path of the watcher's
+   group, `files` = those watched as files.  Paths are compared as Rust compares them, by components (`pseq`: RootDir, a leading
+   CurDir, Normal and `..` components; `lprefix` = Path::starts_with, `parent_seq` = Path::parent). *)
 
-(* the declared file itself, under any spelling with the same components, is filtered exactly as before *)
-Theorem C16_declared_file_still_relevant : forall files exts f p,
-  In f files -> pkey p = pkey f -> watch_filter2 files exts p = watch_filter exts p.
-Proof. exact declared_file_any_spelling. Qed.
+(* a declared path — the watched file under any spelling with the same components, a declared directory, anything below a
+   declared directory — is filtered exactly as before *)
+Theorem C16_declared_path_still_relevant : forall declared files exts w p,
+  In w declared -> lprefix (pseq w) (pseq p) = true -> watch_filter2 declared files exts p = watch_filter exts p.
+Proof. exact declared_path_still_relevant. Qed.
 
-(* any OTHER file in the directory of a declared file never triggers the target: the extra watch reports the declared file only *)
-Theorem C16_neighbour_of_declared_file_ignored : forall files exts f p d,
-  In f files -> parent_key (pkey f) = Some d -> parent_key (pkey p) = Some d ->
-  (forall f', In f' files -> pkey f' <> pkey p) ->
-  watch_filter2 files exts p = false.
+(* anything else in the directory of a watched file never triggers the target: the extra watch reports the declared paths only *)
+Theorem C16_neighbour_of_declared_file_ignored : forall declared files exts f p d,
+  In f files -> parent_seq (pseq f) = Some d -> parent_seq (pseq p) = Some d ->
+  (forall w, In w declared -> lprefix (pseq w) (pseq p) = false) ->
+  watch_filter2 declared files exts p = false.
 Proof. exact neighbour_of_declared_file_ignored. Qed.
 
-(* frame: a path whose directory is not the directory of a declared file is filtered exactly as before (always so when no
+(* frame: a path whose directory is not the directory of a watched file is filtered exactly as before (always so when no
    input is declared as a file): the theorems above about `watch_filter` carry over *)
-Theorem C16_no_declared_file_no_change : forall files exts p,
-  (forall f d q, In f files -> parent_key (pkey f) = Some d -> parent_key (pkey p) = Some q -> q <> d) ->
-  watch_filter2 files exts p = watch_filter exts p.
+Theorem C16_no_declared_file_no_change : forall declared files exts p,
+  (forall f d q, In f files -> parent_seq (pseq f) = Some d -> parent_seq (pseq p) = Some q -> q <> d) ->
+  watch_filter2 declared files exts p = watch_filter exts p.
 Proof. exact no_declared_file_no_change. Qed.
+
+Theorem C16_lprefix_spec : forall a b, lprefix a b = true <-> exists r, b = a ++ r.
+Proof. exact lprefix_spec. Qed.
 
 Example C16_declared_file_nonvacuous :
   let conf_settings := [47;112;47;99;111;110;102;47;115;46;105;110;105] in      (* "/p/conf/s.ini" *)
   let conf_other := [47;112;47;99;111;110;102;47;111;46;105;110;105] in         (* "/p/conf/o.ini" *)
   let conf_dot_settings := [47;112;47;99;111;110;102;47;46;47;115;46;105;110;105] in   (* "/p/conf/./s.ini" *)
+  let conf_sub := [47;112;47;99;111;110;102;47;115;117;98] in                   (* "/p/conf/sub", a declared directory *)
+  let conf_sub_x := [47;112;47;99;111;110;102;47;115;117;98;47;120] in          (* "/p/conf/sub/x" *)
   let src_a := [47;112;47;115;114;99;47;97] in                                  (* "/p/src/a" *)
-  watch_filter2 [conf_settings] None conf_settings = true /\
-  watch_filter2 [conf_settings] None conf_dot_settings = true /\
-  watch_filter2 [conf_settings] None conf_other = false /\
+  let declared := [conf_settings; conf_sub] in
+  watch_filter2 declared [conf_settings] None conf_settings = true /\
+  watch_filter2 declared [conf_settings] None conf_dot_settings = true /\
+  watch_filter2 declared [conf_settings] None conf_other = false /\
   watch_filter None conf_other = true /\
-  watch_filter2 [conf_settings] None src_a = true.
+  watch_filter2 declared [conf_settings] None conf_sub = true /\
+  watch_filter2 declared [conf_settings] None conf_sub_x = true /\
+  watch_filter2 declared [conf_settings] None src_a = true.
 Proof. vm_compute. repeat split. Qed.
 
 (* non-vacuity: a concrete relevant path, a concrete temporary, a concrete state write *)
